@@ -932,6 +932,9 @@ class ScriptedSocket(object):
         if not self.chunks:
             return b""
         c = self.chunks[0]
+        if isinstance(c, BaseException):
+            self.chunks.pop(0)
+            raise c
         if len(c) <= n:
             self.chunks.pop(0)
             return c
@@ -959,6 +962,10 @@ def chunked(data, chunk):
             k += 1
     if chunk.get("empty_after") is not None:
         out.insert(min(chunk["empty_after"], len(out)), b"")
+    if chunk.get("raise_after") is not None:
+        import socket as _socket
+        exc = _socket.timeout("timed out") if chunk.get("raise") == "timeout" else ConnectionResetError(104, "Connection reset by peer")
+        out = out[:min(chunk["raise_after"], len(out))] + [exc]
     return out
 
 
@@ -1085,7 +1092,9 @@ def run_case(case):
     except Exception as ex:
         obs["outcome"] = describe_exception(ex)
     obs["recv_calls"] = sock.recv_calls
-    obs["chunks"] = [x.hex() for x in (chunked(bytes.fromhex(obs["response_hex"]), case.get("chunk"))
+    # (a transport failure is, for everything that looks at the chunk list, the point where the stream stops)
+    obs["chunks"] = ["" if isinstance(x, BaseException) else x.hex()
+                     for x in (chunked(bytes.fromhex(obs["response_hex"]), case.get("chunk"))
                                        if obs["response_hex"] is not None else [])]
     return obs
 
